@@ -8,6 +8,7 @@ package rt
 
 import (
 	"fmt"
+	"runtime"
 	"strconv"
 	"strings"
 )
@@ -74,6 +75,10 @@ type Run struct {
 	Fuel    int
 	// scheduler: called at every lexer fetch and every action when set
 	Yield func(kind byte)
+	// Input is the text being parsed (set by the driver); Inner marks the run of a nested parse
+	// started from an action of the outer parse (see nest() in the harness epilogue)
+	Input string
+	Inner bool
 }
 
 type FuelPanic struct{}
@@ -89,9 +94,15 @@ func Begin(fuel int) *Run {
 	return r
 }
 
+// RaceYield: in the free-running (race detector) mode every lexer call yields the processor.
+var RaceYield bool
+
 func Fetch() {
 	r := Cur
 	if r == nil {
+		if RaceYield {
+			runtime.Gosched()
+		}
 		return
 	}
 	r.Fetches++
